@@ -391,7 +391,7 @@ pub fn spec() -> PropertySpec {
         id: "C03",
         level: "exploration",
         rule: "Histories of 1-8 messages on one simulated connection to the real server with a recording handler that always fetches pending bodies. Each message draws method class x Content-Length multiset (absent; valid 0, 1, <=S, >S, >8 KiB buffer, padded, 2^64-1; +5, -1, 0x10, '5,5', empty, non-numeric, 2^64, '5 5', 1e3; repeated equal / different / differing in name case) x Transfer-Encoding multiset (absent, chunked, gzip, gzip+chunked, reversed, unknown, repeated) x Expect x Content-Type (every table entry, parameters, unknown) x 0-2 Cookie fields, fields shuffled. Bodies are filled with decoy request heads; every genuine request has a unique path. Delivery: pipelined or ping-pong, whole / byte-wise / random fragments, short socket reads. Oracle: an independent framing model folds the header multisets into Body(n) / Empty / UntilEof / Coded / Reject verdicts, giving the exact handler log (bodies, content type, expect flag, cookie map, coding flags) and responses; no decoy may ever reach the handler. Combinations the statement does not pin (coding + length, empty list elements, Expect without length on bodiless methods) are not generated. distinct = schedule hash; non-trivial = at least 2 messages.",
-        scenarios: vec![Scenario { name: "c03.framing", property: "C03", func: scenario, runs_quick: 150_000, runs_thorough: 5_000_000, doc: "framing histories" }],
+        scenarios: vec![Scenario { name: "c03.framing", property: "C03", func: scenario, runs_quick: 250_000, runs_thorough: 8_000_000, doc: "framing histories" }],
         required_probes: vec!["probe.ambiguous_framing_rejected", "probe.transfer_coding", "probe.three_or_more_messages_framed"],
         components: components_server(),
         assumptions: vec!["coding names are generated in lower case only", "obsolete line folding and absolute-form targets are outside the grammar the library documents"],
